@@ -23,6 +23,7 @@ type Plan struct {
 	Pipe    *PipePlan    `json:"pipe,omitempty"`
 	Hostile *HostilePlan `json:"hostile,omitempty"`
 	Stall   *StallPlan   `json:"stall,omitempty"`
+	Duplex  *DuplexPlan  `json:"duplex,omitempty"`
 	KeySet  *KeySetPlan  `json:"keyset,omitempty"`
 	Ctx     *CtxPlan     `json:"ctx,omitempty"`
 }
@@ -107,6 +108,8 @@ func (Engine) Execute(t *testing.T, prop string, p *Plan) *core.Result {
 		return executeHostile(t, prop, p.Seed, p.Hostile)
 	case "stall":
 		return executeStall(t, prop, p.Seed, p.Stall)
+	case "duplex":
+		return executeDuplex(t, prop, p.Seed, p.Duplex)
 	case "keyset":
 		return executeKeySet(t, prop, p.Seed, p.KeySet)
 	case "ctx":
@@ -127,6 +130,8 @@ func (Engine) Shrink(prop string, p *Plan) []*Plan {
 		return shrinkPipe(p)
 	case "hostile":
 		return shrinkHostile(p)
+	case "duplex":
+		return shrinkDuplex(p)
 	case "keyset":
 		return shrinkKeySet(p)
 	case "ctx":
